@@ -228,3 +228,16 @@ _R15 = {
 }
 for _k, _v in _R15.items():
     TEXTS[_k]["text"] += _v
+
+# clauses added after round 16
+_R16 = {
+    "C05": " Also: the index's candidate method returns the counting chain or an empty vector, nothing else.",
+    "C06": " Also: Store::search returns the collected list as it is (result-unmodified); the candidate method has no bypass.",
+    "C10": " Also (R10.d): distance() prepares the matrix on every path to a return.",
+    "C14": " Also (R14.e): nothing but the length guard, the `?` exits and the already-matched test precedes the matcher in a join branch.",
+    "C15": " Also (R15.l): the lower-case store is on every trip of Text::lower's mapping loop.",
+    "C16": " Also (R16.b): distance() prepares the matrix on every path to a return.",
+    "C18": " Also (R18.a): the candidate method returns the counting chain or an empty vector, nothing else.",
+}
+for _k, _v in _R16.items():
+    TEXTS[_k]["text"] += _v
